@@ -85,7 +85,7 @@ def out_len(nd):
 
 
 def _out_len(nd):
-    if nd.op == 'src': return len(nd.a[0])
+    if nd.op in ('src', 'ksrc'): return len(nd.a[0])
     if nd.op == 'map': return _out_len(nd.kids[0])
     if nd.op == 'batch': return -(-_out_len(nd.kids[0]) // nd.a[0])
     if nd.op == 'concat': return _out_len(nd.kids[0]) + _out_len(nd.kids[1])
@@ -110,7 +110,7 @@ def build(nd, ld):
 def coq_lds(nd):
     K = [coq_lds(k) for k in nd.kids]
     i = f'{nd.sid}%nat'
-    if nd.op == 'src': return f'(LSrc {i} {F.coq_list([F.coq_val(v) for v in nd.a[0]])})'
+    if nd.op in ('src', 'ksrc'): return f'(LSrc {i} {F.coq_list([F.coq_val(v) for v in nd.a[0]])})'
     if nd.op == 'map':
         c = nd.a[0]
         fn = f'(deep_add {F.z(c[1])})' if c[0] == 'FAdd' else f'(deep_mul {F.z(c[1])})'
@@ -257,6 +257,10 @@ def run_b(prop, tier, want_prof):
             nbad += 1
             nd = meta[i][0]
             failures.append(dict(kind='program', summary=f'model and implementation disagree on {", ".join(names[w] for w in rel)}: {coq_lds(nd)[:400]} impl: segs={meta[i][1]!r} final={meta[i][2]!r} prof={meta[i][4]!r}'[:1200], config={}))
+    kcov = {}
+    if not want_prof:
+        kf, kcov = keyed_checks(ld, r, tier, f'{prop}_{tier}_keyed')
+        failures += kf
     ops = collections.Counter(x.op for m in meta for x in walk(m[0]))
     cov = dict(programs=len(cases), evaluations=len(cases), distinct=len(set(cases)),
                distinct_nontrivial=len(set(c for c, m in zip(cases, meta) if len(list(walk(m[0]))) >= 3 and len(m[1]) >= 2)),
@@ -268,7 +272,150 @@ def run_b(prop, tier, want_prof):
                next_calls_observed=sum(len(m[1]) + 1 for m in meta), index_accesses_observed=sum(len(m[3]) for m in meta),
                samples=[dict(pipeline=coq_lds(m[0])[:300], per_next=[(a, v) for a, v in m[1]][:4], final=m[2]) for m in meta[:2]],
                exhaustive=False)
+    cov.update(kcov)
     return dict(coverage=cov, failures=failures, assumptions=['CPython generator semantics: code after a yield runs only at the next next()'])
+
+
+# ------------------------------------------------------------------ keyed access ds[key] (TraceKey.v)
+KHEADER = HEADER.replace('LD.TraceTie', 'LD.TraceTie LD.TraceKey') if 'LD.TraceTie' in HEADER else HEADER + 'Require Import LD.TraceKey.\n'
+
+
+def gen_k(r, ids, depth, need_index=False):
+    """pipelines over dict-backed sources; the key string of a source example encodes (source stage id, position)"""
+    if depth <= 0 or r.random() < 0.2:
+        n = r.choice([0, 1, 2, 3, 4, 5])
+        base = r.randint(0, 50)
+        return Node('ksrc', next(ids), (tuple(range(base, base + n)),))
+    ops = ['map', 'map', 'concat', 'slice', 'map']
+    if not need_index:
+        ops += ['filter', 'filter', 'filter']
+    if r.random() < 0.06:
+        ops = ['batch', 'zip']
+    op = r.choice(ops)
+    sid = next(ids)
+    if op == 'map':
+        f = r.choice([('FAdd', r.randint(1, 3)), ('FMul', 2), ('FAdd', 0)])
+        return Node('map', sid, (f,), [gen_k(r, ids, depth - 1, need_index)])
+    if op == 'filter':
+        p = r.choice([('PModEq', 2, 0), ('PModEq', 3, 1), ('PLt', 30), ('PTrue',), ('PTrue',), ('PFalse',)])
+        return Node('filter', sid, (p,), [gen_k(r, ids, depth - 1)])
+    if op == 'batch':
+        return Node('batch', sid, (r.choice([1, 2]),), [gen_k(r, ids, depth - 1, need_index)])
+    if op == 'concat':
+        return Node('concat', sid, (), [gen_k(r, ids, depth - 1, need_index), gen_k(r, ids, depth - 1, need_index)])
+    if op == 'zip':
+        a = Node('ksrc', next(ids), ((1, 2),)); b = Node('ksrc', next(ids), ((3, 4),))
+        return Node('zip', sid, (), [a, b])
+    if op == 'slice':
+        inner = gen_k(r, ids, depth - 1, True)
+        n = out_len(inner)
+        idx = r.sample(range(n), r.randint(0, n)) if n else []       # no position twice: keys stay unique
+        if r.random() < 0.5:
+            idx = sorted(idx)
+        return Node('slice', sid, (tuple(idx),), [inner])
+
+
+def kkey(sid, pos):
+    return f's{sid}_{pos}'
+
+
+def parse_key(k):
+    a, b = k[1:].split('_')
+    return int(a), int(b)
+
+
+def build_k(nd, ld):
+    if nd.op == 'ksrc':
+        return ld.new({kkey(nd.sid, i): v for i, v in enumerate(nd.a[0])})
+    K = [build_k(k, ld) for k in nd.kids]
+    if nd.op == 'map': return K[0].map(LogF(nd.sid, nd.a[0]))
+    if nd.op == 'filter': return K[0].filter(LogF(nd.sid, nd.a[0], pred=True))
+    if nd.op == 'batch': return K[0].batch(nd.a[0])
+    if nd.op == 'concat': return K[0].concatenate(K[1])
+    if nd.op == 'zip': return K[0].zip(K[1])
+    if nd.op == 'slice': return K[0][list(nd.a[0])]
+    raise ValueError(nd.op)
+
+
+def coq_key(k):
+    return '(%d%%nat, %d%%nat)' % k
+
+
+def keyed_checks(ld, r, tier, tag):
+    """ds[key] through map / filter / concatenate / selection chains with an instrumented function at every stage:
+    the application log of ONE lookup is compared with TraceKey.getk_s (each stage on the path once, nothing else)"""
+    big = tier != 'quick'
+    N = 3000 if big else 300
+    cases, meta, failures = [], [], []
+    with warnings.catch_warnings():
+        warnings.simplefilter('ignore')
+        for _ in range(N):
+            ids = itertools.count(1)
+            nd = gen_k(r, ids, r.choice([1, 2, 3, 4]))
+            take_log()
+            try:
+                ds = build_k(nd, ld)
+            except Exception as e:
+                continue
+            if take_log():
+                failures.append(dict(kind='program', summary=f'constructing {coq_lds(nd)[:300]} already applied user functions', config={}))
+            try:
+                keys = [parse_key(k) for k in ds.keys()]
+            except Exception:
+                keys = None
+            if take_log():
+                failures.append(dict(kind='program', summary=f'keys() of {coq_lds(nd)[:300]} applied user functions', config={}))
+            universe = []
+            for x in walk(nd):
+                if x.op == 'ksrc':
+                    universe += [(x.sid, i) for i in range(len(x.a[0]) + 1)]
+            universe.append((999, 0))
+            gets = []
+            for k in universe:
+                take_log()
+                try:
+                    v = ds[kkey(*k)]
+                    gets.append((k, ('val', take_log(), v)))
+                except LookupError:
+                    gets.append((k, ('miss', take_log())))
+                except Exception as e:
+                    take_log()
+                    gets.append((k, ('unsup',)))
+                # direct reading of C08: one lookup applies every stage's function at most once
+                g = gets[-1][1]
+                if g[0] != 'unsup':
+                    sids = [a[0] for a in g[1]]
+                    if len(sids) != len(set(sids)):
+                        failures.append(dict(kind='program', summary=f'ds[{kkey(*k)!r}] of {coq_lds(nd)[:300]} applied a stage function more than once: applications {g[1]}', config={}))
+            def cobs(g):
+                if g[0] == 'val': return f'(OVal {coq_apps(g[1])} {F.coq_val(g[2])})'
+                if g[0] == 'miss': return f'(OMiss {coq_apps(g[1])})'
+                return 'OUnsup'
+            cases.append('(mkKC %s %s %s)' % (coq_lds(nd), 'None' if keys is None else '(Some %s)' % F.coq_list([coq_key(k) for k in keys]),
+                                          F.coq_list(['(%s, %s)' % (coq_key(k), cobs(g)) for k, g in gets])))
+            meta.append((nd, keys, gets))
+    d = common.fresh_dir(tag)
+    files = []
+    per = 150
+    for s0 in range(0, len(cases), per):
+        f = os.path.join(d, f'k_{s0 // per:03d}.v')
+        with open(f, 'w') as fh:
+            fh.write(KHEADER)
+            fh.write('Definition cases : list kcase := [\n' + ';\n'.join(cases[s0:s0 + per]) + '\n].\n')
+            fh.write('Eval vm_compute in (kbad 0 cases).\n')
+        files.append((s0, f))
+    outs = common.run_case_files([f for _, f in files])
+    nbad = 0
+    for s0, f in files:
+        out = outs[f]
+        body = re.sub(r'\s+', ' ', out[out.index('=') + 1:out.rindex(':')])
+        for m in re.finditer(r'\((\d+)%nat, \[([^\]]*)\]\)', body):
+            i = s0 + int(m.group(1))
+            nbad += 1
+            nd, keys, gets = meta[i]
+            failures.append(dict(kind='program', summary=f'model and implementation disagree on keyed access ({m.group(2)}; 1 = keys(), 2 = ds[key] applications / value): {coq_lds(nd)[:400]} impl keys={keys} lookups={gets!r}'[:1400], config={}))
+    hist = collections.Counter(g[0] for m in meta for k, g in m[2])
+    return failures, dict(keyed_pipelines=len(cases), keyed_lookups=sum(len(m[2]) for m in meta), keyed_outcomes=dict(hist), keyed_disagreements=nbad)
 
 
 def walk(nd):
